@@ -298,3 +298,48 @@ Proof.
       rewrite Em.
       destruct (lr (dec_loop v false (skipn (dcurr st) buf) (dcode st) (dpos8 st) proc0 [] 0)); exact HL.
 Qed.
+
+Lemma firstn_S_nth {A} (l : list A) k d : k < length l -> firstn (S k) l = firstn k l ++ [nth k l d].
+Proof.
+  revert k; induction l as [|x l IH]; intros k Hk; [cbn in Hk; lia|].
+  destruct k as [|k]; [reflexivity|]. cbn [firstn nth app]. f_equal. apply IH. cbn in Hk. lia.
+Qed.
+
+(* the complete decoder entry, COBS/R tail-inline wrapper included *)
+Theorem dec_call_honest v F st buf frags res : cinv v F st buf ->
+  let '(r, st', buf') := dec_call_res v st buf frags res false in
+  call_post v F (dcurr st) buf r st' buf'.
+Proof.
+  intros Hc. unfold dec_call_res.
+  pose proof (dec_regular_honest v F st buf frags res Hc) as Hr.
+  destruct (dec_regular_res v st buf frags res false) as [[r0 st0] buf0]. destruct Hr as [Hcp Hmd].
+  destruct (inl v) eqn:Hinl; [|exact Hcp].
+  destruct r0 as [| |e|]; try exact Hcp. destruct e; try exact Hcp.
+  destruct (Nat.eqb_spec (dcode st0) 0) as [|Hcode]; [exact Hcp|].
+  destruct (Nat.leb_spec (length buf0) (dpos st0 + dlen st0)) as [|Hroom]; [exact I|].
+  specialize (Hmd Hcode). cbn zeta in Hmd.
+  destruct Hmd as (k & Hk & Hcur & Hlen & Hsk & Hgeo & Hmsg & Hz & Hh & Hlt).
+  set (unread := skipn (dcurr st) buf) in *.
+  unfold call_post. fold unread.
+  exists (S k), (F ++ firstn k unread).
+  split; [lia|]. split; [cbn [dcurr]; lia|].
+  split; [rewrite splice_length by (cbn [length]; lia); exact Hlen|].
+  split.
+  { cbn [dcurr]. rewrite splice_skipn by (cbn [length]; lia).
+    assert (E : forall l : list byte, skipn (S (dcurr st0)) l = skipn 1 (skipn (dcurr st0) l)).
+    { intros l. rewrite skipn_skipn'. f_equal. lia. }
+    rewrite (E buf0), (E buf), Hsk. reflexivity. }
+  split.
+  { rewrite (firstn_S_nth unread k 1%N Hk), Hz, app_assoc. reflexivity. }
+  assert (Hdec : decoded (mkd 0 0 (S (dcurr st0)) (dpos st0) (S (dlen st0)) (Some (S (dlen st0))))
+                         (splice buf0 (dpos st0 + dlen st0) [nb (dcode st0)]) = decoded st0 buf0 ++ [nb (dcode st0)]).
+  { unfold decoded. cbn [dlen dpos].
+    pose proof (firstn_skipn_splice buf0 (dpos st0 + dlen st0) [nb (dcode st0)] (dpos st0)
+                  ltac:(cbn [length]; lia) ltac:(lia)) as E.
+    replace (dpos st0 + dlen st0 - dpos st0) with (dlen st0) in E by lia. cbn [length] in E.
+    replace (S (dlen st0)) with (dlen st0 + 1) by lia. exact E. }
+  split; [rewrite Hdec; apply (hon_inline v _ _ _ _ Hinl Hh Hlt)|].
+  split; [|reflexivity].
+  unfold cinv. cbn [dpos dlen dcurr dmsg dcode]. split; [lia|].
+  split; [rewrite splice_length by (cbn [length]; lia); unfold unread in Hk; rewrite skipn_length in Hk; lia|]. auto.
+Qed.
